@@ -177,6 +177,8 @@ class Event:
 
 
 class Frame:
+    targs = ()
+
     def __init__(self, body, fid):
         self.body = body
         self.fid = fid
@@ -187,6 +189,7 @@ class Frame:
 
     def clone(self):
         f = Frame(self.body, self.fid)
+        f.targs = self.targs
         f.locals = {k: clone(v) for k, v in self.locals.items()}
         f.bb = self.bb
         f.ret_to = self.ret_to
@@ -1152,7 +1155,7 @@ class Engine:
             raise Unsupported(f"discriminant of {v} in {f.body.name}")
         if k == "cast":
             v = self.eval_operand(ctx, f, rv[1])
-            return self.cast(v, rv[2], rv[3], self.operand_type(f, rv[1]))
+            return self.cast(v, rv[2], rv[3], self.operand_type(f, rv[1]), ctx)
         if k == "tuple":
             return Agg({i: self.eval_operand(ctx, f, o) for i, o in enumerate(rv[1])})
         if k == "array":
@@ -1356,9 +1359,35 @@ class Engine:
                 return z3.IntVal(o) if isinstance(o, int) else o
         raise Unsupported(f"identity of pointer {p}")
 
-    def cast(self, v, ty, kind, from_ty):
+    def fp_result(self, ctx, fpterm, w=64):
+        """bit pattern of a floating-point term: a fresh bit-vector r with `to_fp(r) = term` on the path (SMT-LIB has no fp->bits
+        function; `=` on FloatingPoint identifies all NaNs, so r is any pattern of that value)"""
+        r = self.fresh("fpbits", w)
+        ctx.pc.append(z3.fpBVToFP(r, z3.Float64() if w == 64 else z3.Float32()) == fpterm)
+        return r
+
+    def cast(self, v, ty, kind, from_ty, ctx=None):
         if kind == "Subtype":
             return v            # a change of lifetime variance only: same value
+        if kind == "FloatToInt" and z3.is_bv(v) and v.size() in (32, 64):
+            # Rust `as`: NaN -> 0, saturating at the target's bounds, otherwise truncation toward zero
+            w, signed = self.int_info(ty)
+            if w is None:
+                raise Unsupported(f"FloatToInt to {ty}")
+            srt = z3.Float64() if v.size() == 64 else z3.Float32()
+            x = z3.fpBVToFP(v, srt)
+            lo = -(1 << (w - 1)) if signed else 0
+            hi = (1 << (w - 1)) - 1 if signed else (1 << w) - 1
+            flo, fhi = z3.FPVal(float(lo), srt), z3.FPVal(float(hi + 1), srt)          # hi + 1 = 2^k is exactly representable
+            body = (z3.fpToSBV if signed else z3.fpToUBV)(z3.RTZ(), x, z3.BitVecSort(w))
+            return z3.If(z3.fpIsNaN(x), z3.BitVecVal(0, w), z3.If(z3.fpLT(x, flo) if signed else z3.fpLT(x, z3.FPVal(0.0, srt)), z3.BitVecVal(lo % (1 << w), w),
+                                                                   z3.If(z3.fpGEQ(x, fhi), z3.BitVecVal(hi, w), body)))
+        if kind == "IntToFloat" and z3.is_bv(v):
+            _, signed = self.int_info(from_ty)
+            srt = z3.Float64() if (ty or "").strip().endswith("f64") else z3.Float32()
+            if ctx is None:
+                raise Unsupported("IntToFloat outside a path")
+            return self.fp_result(ctx, z3.fpSignedToFP(z3.RNE(), v, srt) if signed else z3.fpUnsignedToFP(z3.RNE(), v, srt), 64 if srt == z3.Float64() else 32)
         if kind.startswith("PointerCoercion") or kind in ("PtrToPtr", "FnPtrToPtr", "Transmute") and isinstance(v, (Ptr, FnItem, Closure)):
             return v
         if kind == "IntToInt" and z3.is_expr(v) and z3.is_int(v):
@@ -1477,6 +1506,9 @@ class Engine:
         b = self.prog.resolve(path, self_ty, getattr(f.body, "crate", None))
         if b is not None and not any(p.search(norm) for p in self.opaque):
             self.push_frame(ctx, b, args, (dest, ret_bb))
+            mt = re.search(r"::<(.*)>$", path.strip(), re.S)
+            if mt:
+                ctx.frames[-1].targs = [x.strip() for x in split_top(mt.group(1))]      # generic arguments of this instantiation
             return None
         # 4. opaque
         if any(p.search(norm) for p in self.opaque):
